@@ -5,7 +5,7 @@ import re
 from .. import q
 from ..cfg import guards, guard_atoms
 from ..prog import strip_cast, dotted
-from .common import ApplyStep, labelled_sites, obj_is
+from .common import exactly_for_class, ApplyStep, labelled_sites, obj_is
 from .c04 import swallow_check
 
 EXPLANATION = (
@@ -51,7 +51,7 @@ def rules_delivery(run, P='C10', rid='.3'):
         run.check(not any(isinstance(x, (ast.Break, ast.Return, ast.Continue, ast.Try)) for x in ast.walk(lp)), r, ri.short, 'no early exit / handler in the delivery loop',
                   'delivery can stop before every listener was called', lp)
         at = guard_atoms(lp)
-        good = ('truthy', 'isinstance(%s, MetaEvent)' % evp, '') in at and all(a[0] == 'falsy' and 'InternalEvent' in a[1] or a == ('truthy', 'isinstance(%s, MetaEvent)' % evp, '') for a in at)
+        good = exactly_for_class(run, lp, evp, 'MetaEvent')
         run.check(good, r, ri.short, 'delivery exactly for MetaEvent instances', 'delivery condition is %s' % at, lp)
     for name, meth in (('Interpreter.attach', 'append'), ('Interpreter.detach', 'remove')):
         m = run.fn(name)
@@ -213,7 +213,7 @@ def check(run):
             a0 = v.args[0] if v.args else None
             run.check(obj_is(a0, q.param_names(B)[1]), r, bi.short, 'built for the given property statechart', 'first argument differs', st)
         else:
-            blk = st._parent.body
+            blk = q.block_of(st)
             clk_set = [s for s in blk if isinstance(s, ast.Assign) and q.unparse(s.targets[0]) == iv + '.clock']
             good = len(clk_set) == 1 and isinstance(clk_set[0].value, ast.Call) and dotted(clk_set[0].value.func) == 'SynchronizedClock' and \
                 len(clk_set[0].value.args) == 1 and obj_is(clk_set[0].value.args[0], 'self')
